@@ -28,6 +28,8 @@ var c03BumpShapes = []string{
 	`a*b`, `a+b`, `\w+@x`, `[ab]*c+d`, `a*?b`, `a+?b`, `[^,]*?,x`, `(?>a*)b`, `(?>a+)b`, `(?>a*b)`, `(?>a*?b)`,
 	`(?>a+b?)c`, `(?>a*b?)c`, `(?>(?>a+)b?)c`, `(?>a+?b?)c`, `(?>[ab]+?b?)c`, `(?>a*?b?)c`, `(?:(?>a+?b?))c`,
 	`a*`, `a+?`, `.*b`, `.*?b`, `\s*=`, `a*(?<=\Ga*)b`, `a*\Gb`, `(a*)b`, `(?:a*|b)c`,
+	// negated sets at the start (regression: LeadingPrefixes were built from the excluded characters)
+	`[^bc]{2}`, `[^b-d]{2}`, `[^b-c][^b-c]`, `[^a]{2}b`, `[^ab][cd]`,
 }
 
 func legC03ScanModel(c *Ctx) {
